@@ -907,10 +907,11 @@ static int run_phases(unsigned seed, int ypct, int rounds) {
         if (l + 40 < sizeof failtxt) snprintf(failtxt + l, sizeof failtxt - l, "%s%s:k%d:%s:d%d", l ? "," : "", ph_name[op], c[k].kind,
                                               rr == -1 ? "noupdate" : "badstream", pc_diff(&c[k], fb));
         if (rr == -2) goto out;
-        /* re-synchronise so that later phases start again without a request outstanding */
-        pc_fur(&c[k], 0); pc_settle(&c[k], fb, 1, 3000);
       }
     }
+    /* the verdict is known after the first failing phase (all three clients of that phase are recorded): the remaining
+       phases would each cost further 10 s waits per client */
+    if (fails) goto out;
   }
 out:
   /* the verdict of the phases does not depend on how the shutdown goes */
